@@ -66,6 +66,9 @@ type Step struct {
 	// PingSeenAt is the step at whose start the ping was first seen pending (PingReply). The monitor may
 	// hold a ping for several steps before answering, so deletions and re-additions can happen in between.
 	PingSeenAt int
+	// PingInc identifies the entry object the answered liveness check was started for (0: not known);
+	// compare with VerifNodeSnap.Inc of the entry that carries the id now.
+	PingInc uintptr
 }
 
 func (s Step) String() string {
@@ -111,6 +114,29 @@ type Driver struct {
 	mu      sync.Mutex
 	enrPlan map[enode.ID]*enode.Node // what RequestENR returns
 	closed  bool
+	// revalInc[id] = identity of the entry object the most recent liveness check of id was started for
+	// (reported by the table loop through the verif hook before the ping is issued)
+	revalInc map[enode.ID]uintptr
+}
+
+var (
+	drivers   sync.Map // *portalwire.Table -> *Driver
+	hookOnce  sync.Once
+	revalHook = func(tab *portalwire.Table, id enode.ID, inc uintptr) {
+		if v, ok := drivers.Load(tab); ok {
+			d := v.(*Driver)
+			d.mu.Lock()
+			d.revalInc[id] = inc
+			d.mu.Unlock()
+		}
+	}
+)
+
+// RevalInc returns the identity of the entry object the latest liveness check of id was started for (0: none seen).
+func (d *Driver) RevalInc(id enode.ID) uintptr {
+	d.mu.Lock()
+	defer d.mu.Unlock()
+	return d.revalInc[id]
 }
 
 var errDead = errors.New("scripted: no pong")
@@ -124,7 +150,8 @@ func New(selfKeySeed int64, pingInterval time.Duration) (*Driver, error) {
 	if err != nil {
 		return nil, err
 	}
-	d := &Driver{Clock: new(mclock.Simulated), Self: self, DB: db, pings: make(chan pingEvent, 64), enrPlan: map[enode.ID]*enode.Node{}}
+	d := &Driver{Clock: new(mclock.Simulated), Self: self, DB: db, pings: make(chan pingEvent, 64), enrPlan: map[enode.ID]*enode.Node{}, revalInc: map[enode.ID]uintptr{}}
+	hookOnce.Do(func() { portalwire.VerifRevalStart.Store(&revalHook) })
 	tr := &portalwire.VerifTransport{
 		SelfFn: func() *enode.Node { return self },
 		PingFn: func(n *enode.Node) (uint64, error) {
@@ -148,6 +175,7 @@ func New(selfKeySeed int64, pingInterval time.Duration) (*Driver, error) {
 		return nil, err
 	}
 	d.Tab = tab
+	drivers.Store(tab, d)
 	tab.VerifStart()
 	tab.VerifWaitInit()
 	return d, nil
@@ -170,6 +198,7 @@ func (d *Driver) Close() {
 		}
 	}()
 	d.Tab.VerifClose()
+	drivers.Delete(d.Tab)
 	close(stop)
 	d.DB.Close()
 }
@@ -221,8 +250,9 @@ func (d *Driver) AnswerPing(ev *pingEvent, alive bool, newRec *enode.Node) (hand
 	} else {
 		ev.reply <- pingAnswer{0, errDead}
 	}
-	if !before.present {
-		// removed while being checked: the response is dropped by the table, nothing to observe
+	if started := d.RevalInc(id); !before.present || (started != 0 && started != before.inc) {
+		// removed (or removed and added again as a new entry object) while being checked: the response is
+		// dropped by the table, nothing to observe
 		for i := 0; i < 3; i++ {
 			d.Barrier()
 			time.Sleep(200 * time.Microsecond)
@@ -247,6 +277,7 @@ type nodeState struct {
 	live    bool
 	seq     uint64
 	list    string
+	inc     uintptr
 }
 
 func (d *Driver) nodeState(id enode.ID) nodeState {
@@ -254,7 +285,7 @@ func (d *Driver) nodeState(id enode.ID) nodeState {
 	for _, b := range s.Buckets {
 		for _, e := range b.Entries {
 			if e.ID == id {
-				return nodeState{true, e.Checks, e.Live, e.Seq, e.RevalList}
+				return nodeState{true, e.Checks, e.Live, e.Seq, e.RevalList, e.Inc}
 			}
 		}
 	}
